@@ -229,3 +229,27 @@ def generic_replay(pid, path):
     print('(no single-case replay for this kind of case: re-running the quick check)')
     r = subprocess.run([os.path.join(VERIF, 'check'), pid, '--tier', 'quick'])
     return r.returncode
+
+
+class CallTimeout(BaseException):
+    """raised inside a worker process when one implementation call runs far too long (never in threads)"""
+
+
+def _on_alarm(signum, frame):
+    raise CallTimeout()
+
+
+def guard(fn, secs=20):
+    """run fn() under a SIGALRM watchdog: a call into the implementation that does not return is reported by the caller
+    as a finding ("did not terminate") instead of hanging the check.  Main thread of a (worker) process only."""
+    import signal
+    import threading
+    if threading.current_thread() is not threading.main_thread():
+        return fn()
+    old = signal.signal(signal.SIGALRM, _on_alarm)
+    signal.alarm(secs)
+    try:
+        return fn()
+    finally:
+        signal.alarm(0)
+        signal.signal(signal.SIGALRM, old)
